@@ -341,10 +341,11 @@ func c13Exec(w *fw.Worker, c fw.Case) fw.Result {
 
 func init() {
 	fw.Register(&fw.Property{
-		ID:          "C13",
-		Race:        true,
-		WorkerProcs: -1,
-		Rule:        "each combinator is driven directly with items carrying unique sequence numbers: MarshalStream and UnmarshalStream (and both chained) with 1,2,3,4,5,8 workers and slow-worker patterns (a custom traveler whose MarshalJSON sleeps), ChannelMux with 1-4 pipelines and 5 Put patterns incl. a slow pipeline, LookupBatcher with batch sizes 1,2,50,100 and timeouts 1us/1ms, DualProcessor with loaders returning 0/1/many items and interleaved signals, queue.New with fast and slow consumers; input lengths 0,1,2,3,4,5,7,8,9,10,11,39,40,41,49,50,51,99,100,101,249,250,251,5000; delay profiles at the verifhook points inside the worker loops (none, yield, random, a sleep at each site), GOMAXPROCS in {1,2,16}, -race build. Oracle: output sequence == input sequence (loss, duplication and reordering are each visible) and the output channel closes (a range loop over it ends; otherwise the deadlock certificate). Non-trivial = at least one item.",
+		ID:                "C13",
+		Race:              true,
+		ScheduleDependent: true,
+		WorkerProcs:       -1,
+		Rule:              "each combinator is driven directly with items carrying unique sequence numbers: MarshalStream and UnmarshalStream (and both chained) with 1,2,3,4,5,8 workers and slow-worker patterns (a custom traveler whose MarshalJSON sleeps), ChannelMux with 1-4 pipelines and 5 Put patterns incl. a slow pipeline, LookupBatcher with batch sizes 1,2,50,100 and timeouts 1us/1ms, DualProcessor with loaders returning 0/1/many items and interleaved signals, queue.New with fast and slow consumers; input lengths 0,1,2,3,4,5,7,8,9,10,11,39,40,41,49,50,51,99,100,101,249,250,251,5000; delay profiles at the verifhook points inside the worker loops (none, yield, random, a sleep at each site), GOMAXPROCS in {1,2,16}, -race build. Oracle: output sequence == input sequence (loss, duplication and reordering are each visible) and the output channel closes (a range loop over it ends; otherwise the deadlock certificate). Non-trivial = at least one item.",
 		Assumptions: []string{
 			"batch sizes of the LookupBatcher are recorded, not judged (the property does not constrain them)",
 			"ChannelMux.Put is called from one goroutine, as in its only caller",
